@@ -101,7 +101,7 @@ func runC04(args []string) int {
 		{"bls12-377", ecc.BLS12_377.ScalarField(), true}, {"bw6-761", ecc.BW6_761.ScalarField(), false},
 		{"bls12-381", ecc.BLS12_381.ScalarField(), false}, {"tiny", tinyMod, true}, {"tiny", tinyMod, false},
 	}
-	nprog := 120
+	nprog := 360
 	if o.Thorough() {
 		nprog = 2500
 	}
